@@ -27,7 +27,7 @@ CONSTANTS Ty,        \* "vec" | "list" | "queue" | "set" | "map"
           Metas,     \* metadata codes with-meta is tried with
           MaxDepth,  \* length of the histories
           MaxSize,   \* no collection grows beyond this size
-          Shard, NShards, \* "tree": only the subtrees whose first action falls into this shard (NShards = 1: all)
+          Shard, NShards, \* "tree": only the subtrees whose second action falls into this shard (NShards = 1: all)
           Mode,      \* "tree": exhaustive, one line per node | "sim": two-phase random step, one line per history
           Bug        \* "none" | a deliberate fault of the MODEL that the laws must reject (anti-vacuity)
 
@@ -220,8 +220,11 @@ Do(a) ==
 ActNames == <<"conj", "conje", "assoc", "dissoc", "disj", "pop", "into", "merge", "empty", "withmeta", "update",
               "transient", "conj!", "assoc!", "dissoc!", "disj!", "pop!", "persistent!", "zombie">>
 NameIdx(n) == CHOOSE i \in 1..Len(ActNames) : ActNames[i] = n
-InShard(a) == NShards = 1 \/ Len(hist) > 0
-              \/ (NameIdx(a.a) + a.i + 2 * a.j + 3 * (a.k + 2) + 5 * a.v) % NShards = Shard
+(* sharding is by the SECOND action of a history (the subtrees below the first actions are too uneven) *)
+(* (IF, not \/ : TLC explores every disjunct of a disjunction inside the next-state relation) *)
+InShard(a) == IF NShards = 1 \/ Len(hist) # 1 THEN TRUE
+              ELSE (NameIdx(a.a) + NameIdx(hist[1].act[1]) + a.i + 2 * a.j + 3 * (a.k + 2) + 5 * a.v
+                    + 7 * hist[1].act[5]) % NShards = Shard
 NextTree == Len(hist) < MaxDepth /\ (\E a \in Acts : InShard(a) /\ Do(a)) /\ nxt' = nxt
 (* "sim": a random step.  The action is drawn with TLC's RandomElement (seeded by -seed): first the kind  *)
 (* (KindSeq: a weighted list, growth is favoured so that collections cross the 32-element boundary of     *)
